@@ -23,10 +23,13 @@ def history_task(item):
     fft = len(item) > 3 and item[3]
     r = random.Random(seed)
     cfg = random_cfg(r)
-    if fft:
+    if fft == "big":
+        # tens of data points: clones with many members, nodes with many children, two-digit node labels
+        cfg.update(n=r.choice([12, 20, 35, 60]), grid=r.choice([11, 21, 40]), style=r.choice(["gauss", "gauss", "flat", "narrow"]))
+    elif fft:
         # grids from 1000 points take the FFT convolution branch; data stay inside a small dynamic range (C02's window)
         cfg.update(n=r.choice([2, 3, 4, 5]), grid=r.choice([1000, 1024, 1100]), style=r.choice(["narrow", "narrow", "flat"]), samples=r.choice([1, 2]))
-    ops = world_edit.gen_history(r, cfg["n"], n_moves=(r.choice([0, 3, 8, 15, 30, 60]) if not fft else r.choice([0, 2, 5])), p_fault=r.choice([0.0, 0.1, 0.25]),
+    ops = world_edit.gen_history(r, cfg["n"], n_moves=(r.choice([0, 3, 8, 15, 30, 60]) if fft in (False, "big") else r.choice([0, 2, 5])), p_fault=r.choice([0.0, 0.1, 0.25]),
                                  outliers=cfg["outlier_prob"] > 0)
     probs, st = world_edit.run_history(cfg, ops, oracles)
     out = {"seed": seed, "cfg": cfg, "n_ops": len(ops), "stats": {k: v for k, v in st.items() if k != "state_set"},
@@ -49,7 +52,9 @@ def history_task(item):
 
 def run_histories(ctx, oracles, n_hist, tag="h", fft=False):
     items = [(ctx.sub((tag, i)), sorted(oracles), True, fft) for i in range(n_hist)]
-    if fft:
+    if fft == "big":
+        ctx.probe("histories_with_12_to_60_data_points", n_hist)
+    elif fft:
         ctx.probe("histories_on_fft_sized_grids", n_hist)
     res = runner.pmap(history_task, items, timeout=1200)
     states = set()
